@@ -77,13 +77,13 @@ def leGroups (n : Nat) (bs : Bytes) : List Nat := leGroupsAux n (bs.length + 1) 
 
 /-- `AttributeQuantizationTransform::InverseTransformAttribute`: component `c` of every entry
     uses `mins[c]` -/
-def dequantAll (range maxQ : Nat) (mins : List Nat) : List Int → List Nat → List Bytes → List Bytes
+def dequantAll (range bits : Nat) (mins : List Nat) : List Int → List Nat → List Bytes → List Bytes
   | [], _, acc => acc.reverse
   | v :: vs, ms, acc =>
     let (m, ms') := match ms with
       | m :: ms' => (m, ms')
       | [] => (mins.headD 0, mins.drop 1)
-    dequantAll range maxQ mins vs ms' (writeLE 4 (Leaf.dequant range maxQ m v) :: acc)
+    dequantAll range bits mins vs ms' (writeLE 4 (Leaf.dequant range bits m v) :: acc)
 
 /-- `AttributeOctahedronTransform::InverseTransformAttribute` -/
 def octaAll (q : Nat) : List Int → List Bytes → List Bytes
@@ -248,8 +248,7 @@ def decodeSequentialAttributes (opts : DecOpts) (numPoints : Nat) : DecM (List A
         | 2 =>
           match s.transform with
           | .quantization bits mins range =>
-            let maxQ := 2^bits.toNat - 1
-            pure (d.toAttribute numPoints (dequantAll range maxQ mins s.portable mins []).flatten)
+            pure (d.toAttribute numPoints (dequantAll range bits.toNat mins s.portable mins []).flatten)
           | _ => fail
         | _ =>
           match s.transform with
